@@ -187,8 +187,8 @@ func (r Ref) CommonName() string {
 		if r.Digest != "" {
 			cn = cn + "@" + r.Digest
 		}
-	case "ocidir":
-		cn = fmt.Sprintf("ocidir://%s", r.Path)
+	case "ocidir", "ocifile":
+		cn = fmt.Sprintf("%s://%s", r.Scheme, r.Path)
 		if r.Tag != "" {
 			cn = cn + ":" + r.Tag
 		}
